@@ -55,7 +55,8 @@ func (s *c02Scene) add(parent *c02Stored, name string) c02Stored {
 //  2 child of a stored side block, same height as head after import (2 old / 2 new)
 //  3 child of the head's grandparent        (lower than the head: "shorter", tie -> lower number wins)
 //  4 child of a stored 2-block side chain   (higher than the head: "longer", may be lighter)
-const c02NShapes = 5
+//  5 3-block canonical chain, child of a stored 2-block side chain (3 old / 3 new)   [thorough]
+//  6 3-block canonical chain, child of genesis (number 1, head at 3)                 [thorough]
 
 func c02Build(shape int) *c02Scene {
 	s := &c02Scene{f: c02NewFix()}
@@ -82,6 +83,18 @@ func c02Build(shape int) *c02Scene {
 		s.head = a1
 		s1 := s.add(&g, "S1")
 		s.parent = s.add(&s1, "S2")
+	case 5, 6:
+		a2 := s.add(&a1, "A2")
+		s.f.canon(a2.b)
+		a3 := s.add(&a2, "A3")
+		s.f.canon(a3.b)
+		s.head = a3
+		if shape == 5 {
+			s1 := s.add(&g, "S1")
+			s.parent = s.add(&s1, "S2")
+		} else {
+			s.parent = g
+		}
 	}
 	s.f.head(s.head.b)
 	// invariant: nothing stored is heavier than the head
@@ -94,7 +107,7 @@ func c02Build(shape int) *c02Scene {
 
 // VerifC02_WriteBlockStep: one WriteBlockWithState step preserves the invariant.
 func VerifC02_WriteBlockStep() {
-	s := c02Build(vs.Choice("shape", c02NShapes))
+	s := c02Build(vs.Choice("shape", vs.Param("shapes")))
 	f, bc := s.f, s.f.bc
 	vs.Assert(bc.CurrentBlock().Hash() == s.head.b.Hash(), "fixture: opened chain has the constructed head")
 
@@ -145,7 +158,7 @@ func VerifC02_WriteBlockStep() {
 
 // VerifC02_WriteHeaderStep: same step for the header chain (header-first sync).
 func VerifC02_WriteHeaderStep() {
-	s := c02Build(vs.Choice("shape", c02NShapes))
+	s := c02Build(vs.Choice("shape", vs.Param("shapes")))
 	f, hc := s.f, s.f.bc.hc
 	vs.Assert(hc.CurrentHeader().Hash() == s.head.b.Hash(), "fixture: opened chain has the constructed header head")
 
